@@ -12,6 +12,9 @@ at the top-level directory.
 #include <math.h>
 #include <stdlib.h>
 #include "slu_mt_cdefs.h"
+#ifdef SLU_MT_VERIF
+#include "slu_mt_verif.h"
+#endif /* SLU_MT_VERIF */
 
 int_t
 pcgstrf_pivotL(
@@ -143,6 +146,9 @@ pcgstrf_pivotL(
     
     /* Interchange row subscripts */
     if ( pivptr != nsupc ) {
+#ifdef SLU_MT_VERIF
+	SLUV_EVENT(SLUV_E_SN_XCHG, pnum, jcol, fsupc, pivptr, 0, 0);
+#endif /* SLU_MT_VERIF */
 	itemp = lsub_ptr[pivptr];
 	lsub_ptr[pivptr] = lsub_ptr[nsupc];
 	lsub_ptr[nsupc] = itemp;
